@@ -583,3 +583,25 @@ PROPS["C16"] = dict(
           "between iteration 1000 and 3000 of the long loops."),
     assumptions=["ORC_CODE=debug (which disables freeing) is not set"],
 )
+
+PROPS["C17"] = dict(
+    variant="plain",
+    sources=ENGINE + ["props/c17_determinism.c"],
+    level="exploration",
+    technique="metamorphic property-based testing (rapidcheck): the same generated program is compiled before and after a generated history of other compiles/frees, at different debug levels and after a reset; machine code, listing and run results must be identical",
+    level_text=("generated programs (full opcode set) x 8 registered targets x flag variations x debug levels x histories of up to 14 other "
+                "compiles/hand-offs/frees: three compilations of the same program are compared byte for byte (code, listing, result), and on "
+                "x86 the two placements are run on identical inputs and compared bit for bit. Sampled, not exhaustive"),
+    level_note=("trusted base: harness and generator; ORC_CODE is not set (randomize is documented to randomise registers); the debug output "
+                "itself is formatted and dropped by a print function installed with orc_debug_set_print_function; a crash inside the first "
+                "compilation is C05's subject and is counted as excluded"),
+    stages=[
+        dict(name="rc-histories", mode="rc", quick=dict(cases=200000, max_size=600, budget=50), thorough=dict(cases=6000000, max_size=900, budget=1200)),
+    ],
+    rule=("a case is (program, target in {avx,sse,mmx,altivec,neon,mips,c64x-c,c}, flags, three debug levels 0..5, history). Non-trivial: "
+          "the compilation produced code or a listing AND at least one of: the second placement differs from the first, the debug levels "
+          "differ, or the history has four or more operations. Oracle: compile result, code size, code bytes and listing of compilation "
+          "#1 (fresh object after the history) and #2 (reset + recompile) equal those of #0; same code run twice and code at the old and "
+          "new placement run on identical inputs give bit-identical destination arrays and accumulators."),
+    assumptions=["ORC_CODE is unset", "x86 runs only use flag sets within the machine's features"],
+)
